@@ -1,6 +1,6 @@
 From Coq Require Import ZArith List String.
 From DRX Require Import Py.PyBytes Py.Val.
-From DRX Require Model.ScoreIO Model.RiffIO Model.IndexIO Model.XtractIO Model.SndIO Model.VwscIO Model.ClutIO Model.TextIO Model.CastIO.
+From DRX Require Model.ScoreIO Model.RiffIO Model.IndexIO Model.XtractIO Model.SndIO Model.VwscIO Model.ClutIO Model.TextIO Model.CastIO Model.BitdIO.
 Import ListNotations.
 Open Scope string_scope.
 
@@ -28,7 +28,8 @@ Definition table : list (string * (val -> val)) := [
   ("get_palette_name", Model.ClutIO.run_get_palette_name);
   ("parse_stxt", Model.TextIO.run_parse_stxt);
   ("parse_fmap", Model.TextIO.run_parse_fmap);
-  ("parse_cast", Model.CastIO.run_parse_cast)
+  ("parse_cast", Model.CastIO.run_parse_cast);
+  ("bitd2bmp", Model.BitdIO.run_bitd2bmp)
 ].
 
 Fixpoint lookup (n : string) (t : list (string * (val -> val))) : option (val -> val) :=
